@@ -289,9 +289,85 @@ def generate(rng, tier):
                 yield Case('# opaque ' + line, '# opaque ' + line, sig, fail, inp)
             else:
                 yield Case(line, real, sig, fail, inp)
+    # whole streams delivered in arbitrary pieces
+    for _ in range(60 if thorough else 16):
+        yield chunked_stream_case(rng, rng.choice(('gsm0338', 'gsm0338', 'ucs2', 'latin_1')))
     # streams with inconsistent framing: predicate only
     for _ in range(30 if thorough else 8):
         yield stream_case(rng)
+
+
+def chunked_stream_case(rng, default, fixed=None):
+    """a stream of PDUs (valid, unparsable, unsupported, stray responses; possibly one with an unusable header, possibly
+    an incomplete PDU at the end) delivered in pieces of arbitrary size, as TCP does: the responses written, in order,
+    are compared with the stream-level model (rxs)"""
+    if fixed is None:
+        items = [q for q, _t in gen_pdus(rng, rng.randrange(3, 14)) if q[4:8] != b'\x00\x00\x00\x06' and not _opaque(q)
+                 and len(q) >= 16 and struct.unpack('!I', q[:4])[0] == len(q)]
+        tail = b''
+        if rng.random() < 0.4:
+            extra = gen_pdus(rng, 1)[0][0]
+            tail = extra[:rng.randrange(1, max(2, len(extra)))]
+            if len(tail) >= 16 and struct.unpack('!I', tail[:4])[0] <= len(tail):
+                tail = tail[:15]
+        stream = b''.join(items) + tail
+        cuts = sorted(rng.sample(range(1, len(stream)), min(len(stream) - 1, rng.choice((0, 1, 3, 8, 25))))) if len(stream) > 1 else []
+    else:
+        stream = bytes.fromhex(fixed['hex'])
+        cuts = fixed['cuts']
+    pieces = [stream[a:b] for a, b in zip([0] + cuts, cuts + [len(stream)])]
+    s = Sim(enquire_link_interval=1e6, socket_timeout=5.0, default_encoding=default)
+    st = {}
+    try:
+        async def env():
+            for _ in range(400):
+                if s.esme.session_state.name.startswith('BOUND') and s.esme._bound.is_set():
+                    break
+                await asyncio.sleep(0.01)
+            conn = s.smsc.conns[-1]
+            st['n0'] = len(conn.pdus)
+            st['conn'] = conn
+            for piece in pieces:
+                conn.feed(piece)
+                await asyncio.sleep(rng.choice((0.0, 0.001, 0.2)) if fixed is None else 0.001)
+            await asyncio.sleep(1.0)
+            st['closed'] = conn.closed or s.smsc.conns[-1] is not conn
+            st['done'] = s.start_task.done()
+            s.stop()
+        s.loop.create_task(env())
+        s.run(10 ** 5)
+        ended = [e for e in s.events if e[1] == 'start-ended']
+        stops = [e for e in s.events if e[1] == 'stop-called']
+        early = bool(ended and (not stops or ended[0][0] < stops[0][0]))
+        answers = [struct.unpack('!III', x[4:16]) for x in st['conn'].pdus[st['n0']:] if x[4:8] != b'\x80\x00\x00\x06'
+                   and x[4:8] != b'\x00\x00\x00\x06'] if 'conn' in st else []
+    finally:
+        s.close()
+    real = 'ok ' + ' / '.join(['respond %d %d %d' % a for a in answers] + (['escape'] if st.get('closed') else []))
+    fail = None
+    if early:
+        fail = 'start() ended (%s) while reading the stream' % (ended[0][2],)
+    else:
+        # independent predicate: every framed request with a recognised header before the first unusable header got exactly
+        # one response echoing its sequence number, in order
+        cmds, stats, reqs = known_enum()
+        want = []
+        i = 0
+        while i + 16 <= len(stream):
+            ln, cmd, stt, seq = struct.unpack('!IIII', stream[i:i + 16])
+            if cmd not in cmds or stt not in stats or ln < 16:
+                break
+            if i + ln > len(stream):
+                break
+            if cmd in reqs:
+                want.append(seq)
+            i += ln
+        got = [a[2] for a in answers]
+        if got != want:
+            fail = 'requests with sequence numbers %s were read, responses carry %s' % (want, got)
+    line = 'rxs %s %s' % (L.enc_triple(default), stream.hex() or '-')
+    return Case(line, real, ('rxs', len(pieces) if len(pieces) < 3 else 3, bool(st.get('closed')), min(len(answers), 4)), fail,
+                {'op': 'rxs', 'default': default, 'hex': stream.hex(), 'cuts': cuts})
 
 
 def _opaque(p):
@@ -366,6 +442,9 @@ def replay(inp):
     cmds, stats, reqs = known_enum()
     if inp.get('op') == 'stream':
         return stream_case(None, fixed=(inp['kind'], inp['hex']))
+    if inp.get('op') == 'rxs':
+        import random
+        return chunked_stream_case(random.Random(0), inp['default'], fixed=inp)
     if inp.get('op') == 'rx-stateful':
         pdus = [bytes.fromhex(h) for h in inp['pdus']]
         obs, early, exc = batch(pdus, inp['default'], ['replay'] * len(pdus), presubmit=inp['presubmit'])
